@@ -290,7 +290,8 @@ class DRec:
     the methods of Python's dict are not part of the query language), a subscript is a key."""
 
     def __init__(self, d):
-        object.__setattr__(self, "_d", dict(d))
+        # idempotent: the implementation's outputs share sub-trees, so a dictionary node can be wrapped more than once
+        object.__setattr__(self, "_d", dict(d._d if isinstance(d, DRec) else d))
 
     def __getattribute__(self, name):
         if name.startswith("_"):
